@@ -1081,8 +1081,17 @@ fn loop_oracle(c: &LoopCase, o: &LoopObs, e: &LoopEnc) -> Vec<(String, String)> 
                 bad.push((format!("round {k}: {} calls processed but {} outputs in request {}", e.done[k].len(), ids.len(), k + 1), "outputs_differ_from_processed".to_string()));
             }
         }
-        if !c.stateless && k + 1 < o.bodies.len() && o.bodies[k + 1]["previous_response_id"].as_str().map(|s| s.is_empty()).unwrap_or(true) {
-            bad.push((format!("follow-up request {} has no previous_response_id", k + 1), "followup_without_previous".to_string()));
+        if !c.stateless && k + 1 < o.bodies.len() {
+            // the outputs must be attached to the response that made the calls: the last response id round k announced
+            // (or, when it announced none, the one the previous follow-up was chained to)
+            let announced = round.and_then(|r| r.events.iter().filter_map(|ev| ev.get("response").and_then(|x| x.get("id")).and_then(|x| x.as_str()).filter(|x| !x.is_empty())).last());
+            let want = announced.or_else(|| o.bodies[k]["previous_response_id"].as_str());
+            let got = o.bodies[k + 1]["previous_response_id"].as_str();
+            if got.map(|s| s.is_empty()).unwrap_or(true) {
+                bad.push((format!("follow-up request {} has no previous_response_id", k + 1), "followup_without_previous".to_string()));
+            } else if got != want {
+                bad.push((format!("follow-up request {} is chained to response {got:?}, the calls it answers were made by {want:?}", k + 1), "followup_chained_to_wrong_response".to_string()));
+            }
         }
     }
     // O2: a tool excluded by the configured tool choice is never executed
